@@ -1,5 +1,5 @@
 //! C10 — block builders emit exactly the accepted bundles within the cost limit.
-//! Engine H: every history of <= 3 (quick) / <= 4 (thorough) add_spend_bundles calls over a
+//! Engine H: every history of <= 3 (quick) / <= 5 (thorough) add_spend_bundles calls over a
 //! 25-letter alphabet (5 bundle shapes x 5 declared-cost policies, incl. "lands exactly on the
 //! limit" and "one more than that") followed by finalize, for both builders, each re-executed on
 //! a fresh real builder. Oracles: own decoding of the generator, own signature aggregate,
@@ -355,8 +355,34 @@ fn check_history<B: Builder>(hist: &[(Shape, CostPolicy)], tcost: &BTreeMap<(Sha
         if r2.accepted.len() != reduced.len() {
             return Err(("undo/reduced-history-declines".into(), format!("history {hist:?} results {:?}: an add that was accepted is declined once the rejected adds are removed ({:?})", out.results, r2.results)));
         }
-        if r2.fin.0 != out.fin.0 || r2.fin.1 != out.fin.1 || r2.fin.2 != out.fin.2 {
-            return Err(("undo/output-differs".into(), format!("history {hist:?} results {:?}: output differs from the history with rejected adds removed (generator equal: {}, signature equal: {}, cost {} vs {})", out.results, r2.fin.0 == out.fin.0, r2.fin.1 == out.fin.1, out.fin.2, r2.fin.2)));
+        if r2.fin.1 != out.fin.1 {
+            return Err(("undo/signature-differs".into(), format!("history {hist:?} results {:?}: signature differs from the history with rejected adds removed", out.results)));
+        }
+        if r2.fin.0 == out.fin.0 && r2.fin.2 != out.fin.2 {
+            return Err(("undo/cost-differs".into(), format!("history {hist:?} results {:?}: same generator but cost {} vs {} for the history with rejected adds removed", out.results, out.fin.2, r2.fin.2)));
+        }
+        if r2.fin.0 != out.fin.0 {
+            // classify: same decoded tree (only the choice of back-references differs) or not;
+            // a cost difference must be exactly the byte term of the length difference
+            let mut a2 = clvmr::Allocator::new();
+            let n2 = clvmr::serde::node_from_bytes_backrefs(&mut a2, &r2.fin.0).map_err(|e| ("undo/generator-undecodable".to_string(), format!("{e:?}")))?;
+            let tree2 = Sx::from_node(&a2, n2);
+            let dlen = out.fin.0.len() as i128 - r2.fin.0.len() as i128;
+            let dcost = out.fin.2 as i128 - r2.fin.2 as i128;
+            let class = if tree2 != tree {
+                "undo/generator-tree-differs"
+            } else if dcost != dlen * c.cost_per_byte as i128 {
+                "undo/cost-differs"
+            } else if dlen != 0 {
+                "undo/generator-bytes-differ/same-tree/size-differs"
+            } else {
+                "undo/generator-bytes-differ/same-tree/same-size"
+            };
+            if std::env::var_os("MC_C10_DUMP").is_some() {
+                eprintln!("with rejected adds   : {}", hex::encode(&out.fin.0));
+                eprintln!("rejected adds removed: {}", hex::encode(&r2.fin.0));
+            }
+            return Err((class.into(), format!("history {hist:?} results {:?}: generator bytes differ from the history with rejected adds removed ({} vs {} bytes, cost {} vs {}, decoded tree equal: {}, signature equal)", out.results, out.fin.0.len(), r2.fin.0.len(), out.fin.2, r2.fin.2, tree2 == tree)));
         }
     }
     let key = fxhash(&(B::INTERNED, &out.accepted, out.costs.last(), out.results.last()));
@@ -401,7 +427,7 @@ fn parse_hist(v: &Value) -> Vec<(Shape, CostPolicy)> {
 }
 
 fn run(rep: &Report) {
-    let depth = rep.tier.pick(3, 4);
+    let depth = rep.tier.pick(3, 5);
     rep.set_rule(&format!("every history of <= {depth} add_spend_bundles calls over 25 letters = bundle shape {{one spend, two spends sharing its puzzle, 40 kB solution, undecodable reveal, batch of two bundles}} x declared cost {{truthful, lands exactly on the limit, that + 1, limit + 1, 0}}, followed by finalize, on a fresh BlockBuilder and a fresh InternedBlockBuilder (max block cost {MAX_BLOCK}); states = distinct (accepted adds, cost() estimate, last result) tuples; distinct = distinct histories x builder"));
     rep.assume("truthful cost = execution + condition cost reported by run_spendbundle; 'lands exactly' is computed by a dry run of the same history on the real builder; generator decoded with clvmr's back-reference parser + harness Sx");
     // truthful costs per (shape, position)
